@@ -32,6 +32,103 @@ def ascii_set_bits(hexmem):
     return out
 
 
+def uri_builder_methods(c):
+    return {b.name: b for b in c.bodies if b.impl and not b.trait and ty_adt(b.self_ty) == UB and b.kind == "assoc_fn"}
+
+
+def encode_sets(F, req, req_key):
+    """Every AsciiSet that can reach a percent-encoding call of the client URI builder and of the client macro.  A set passed
+    as a parameter is followed to the arguments of every caller inside UriBuilder.  Returns (escapers, sets, problems):
+    escapers {method: (body, call)}, sets {label: (bits, required, where)}, problems [(where, key, message)]."""
+    c = F.crate("conjure_http")
+    cm = F.crate("conjure_macros")
+    methods = uri_builder_methods(c)
+    escapers, sets, problems = {}, {}, []
+
+    def resolve(b, op, depth, trail):
+        """list of (const, where-label) for operand `op` of body b"""
+        cst = dt.resolve_const(b, op)
+        if cst is not None and "mem" in cst:
+            return [(cst, trail)]
+        srcs = Tracer(b, through_calls=False, through_agg=False).sources(op)
+        out = []
+        for s_ in srcs:
+            if s_[0] == "arg" and depth < 4:
+                k = s_[1]
+                callers = 0
+                for nm, cb in methods.items():
+                    for bb, t in cb.calls():
+                        if t["call"].get("local") and ty_adt(t["call"].get("self_ty")) == UB and t["call"]["name"] == b.name and len(t["args"]) >= k:
+                            callers += 1
+                            out += resolve(cb, t["args"][k - 1], depth + 1, trail + [f"{nm} -> {b.name}"])
+                if not callers:
+                    return None
+            else:
+                return None
+        return out or None
+
+    spec = json.load(open(os.path.join(core.VERIF, "spec", "uri_required.json")))
+    path_only = {int(k) for k in spec.get("path_only", {})}
+    query_only = {int(k) for k in spec.get("query_only", {})}
+    callers_of = {}
+    for nm, cb in methods.items():
+        for bb, t in cb.calls():
+            if t["call"].get("local") and ty_adt(t["call"].get("self_ty")) == UB and t["call"]["name"] in methods:
+                callers_of.setdefault(t["call"]["name"], set()).add(nm)
+
+    def public_roots(name, seen=None):
+        seen = seen or set()
+        if name in seen:
+            return set()
+        seen.add(name)
+        out = {name} if methods[name].d.get("vis") == "pub" else set()
+        for cn in callers_of.get(name, ()):
+            out |= public_roots(cn, seen)
+        return out
+
+    def needed(entry):
+        """bytes required of a set that is reached from the public methods leading to `entry`"""
+        ctxs = {"query" if "query" in r else "path" for r in public_roots(entry)} or {"path", "query"}
+        need = set(req)
+        if "path" not in ctxs:
+            need -= path_only
+        if "query" not in ctxs:
+            need -= query_only
+        return need, "+".join(sorted(ctxs))
+
+    for name, b in methods.items():
+        for bb, t in b.calls():
+            if t["call"]["def"] in ("percent_encoding::utf8_percent_encode", "percent_encoding::percent_encode"):
+                escapers[name] = (b, t)
+                r = resolve(b, t["args"][1], 0, [])
+                if r is None:
+                    problems.append((b.loc(t["ln"]), f"{name}|set-const", "the percent-encode set passed to the percent-encoder cannot be resolved to compile-time constants (directly or through the arguments of every caller in UriBuilder)"))
+                    continue
+                for cst, trail in r:
+                    need, cx = needed(trail[-1].split(" -> ")[0] if trail else name)
+                    label = "conjure_http " + cst.get("item", "?") + (" via " + " / ".join(trail) if trail else "") + f" [{cx} values]"
+                    sets[label] = (ascii_set_bits(cst["mem"]), need, b.loc(t["ln"]))
+    for b in cm.bodies:
+        for bb, t in b.calls():
+            if t["call"]["def"] in ("percent_encoding::utf8_percent_encode", "percent_encoding::percent_encode"):
+                cst = dt.resolve_const(b, t["args"][1])
+                if cst is None or "mem" not in cst:
+                    problems.append((b.loc(t["ln"]), f"{b.id}|set-const", "macro: percent-encode set is not a constant"))
+                    continue
+                sets[f"conjure_macros {cst.get('item', '?')} in {b.name}"] = (ascii_set_bits(cst["mem"]), req_key, b.loc(t["ln"]))
+    return escapers, sets, problems
+
+
+def load_required():
+    spec = json.load(open(os.path.join(core.VERIF, "spec", "uri_required.json")))
+    req = {int(k) for k in spec["required_value"]}
+    return spec, req, req | {int(k) for k in spec["required_key_extra"]}
+
+
+def missing_text(spec, missing):
+    return "; ".join(f"{chr(x) if 32 < x < 127 else hex(x)}: {spec['required_value'].get(str(x)) or spec['required_key_extra'].get(str(x))}" for x in missing[:4])
+
+
 def run(ctx):
     ctx.explanation = EXPLANATION
     ctx.assumptions = ["percent-encoding encodes exactly the bytes of the given AsciiSet plus all non-ASCII bytes; percent_decode / form_urlencoded invert it",
@@ -46,28 +143,10 @@ def run(ctx):
     # ---------------- escaper and its set
     methods = {b.name: b for b in c.bodies if b.impl and not b.trait and ty_adt(b.self_ty) == UB and b.kind == "assoc_fn"}
     ctx.floor("R7.2", "UriBuilder methods", len(methods), 11)
-    escapers = {}
-    for name, b in methods.items():
-        for bb, t in b.calls():
-            if t["call"]["def"] == "percent_encoding::utf8_percent_encode":
-                cst = dt.resolve_const(b, t["args"][1])
-                escapers[name] = (b, t, cst)
+    escapers, sets, problems = encode_sets(F, req, req_key)
     ctx.check(len(escapers) == 1, "R7.2", "conjure_http", "escaper|unique", f"expected exactly one escaping function in UriBuilder, found {sorted(escapers)}", nontrivial=False)
-    sets = {}
-    for name, (b, t, cst) in escapers.items():
-        if cst is None or "mem" not in cst:
-            ctx.violation("R7.1", b.loc(t["ln"]), f"{name}|set-const", "the percent-encode set passed to utf8_percent_encode is not a compile-time constant")
-            continue
-        sets["conjure_http " + cst.get("item", "?")] = (ascii_set_bits(cst["mem"]), req, b.loc(t["ln"]))
-    # the macro crate's sets: every AsciiSet constant passed to percent_encode / utf8_percent_encode there
-    for b in cm.bodies:
-        for bb, t in b.calls():
-            if t["call"]["def"] in ("percent_encoding::utf8_percent_encode", "percent_encoding::percent_encode"):
-                cst = dt.resolve_const(b, t["args"][1])
-                if cst is None or "mem" not in cst:
-                    ctx.violation("R7.1", b.loc(t["ln"]), f"{b.id}|set-const", "macro: percent-encode set is not a constant")
-                    continue
-                sets[f"conjure_macros {cst.get('item', '?')} in {b.name}"] = (ascii_set_bits(cst["mem"]), req_key, b.loc(t["ln"]))
+    for where, key, msg in problems:
+        ctx.violation("R7.1", where, key, msg)
     ctx.floor("R7.1", "percent-encode set uses", len(sets), 2)
     for name, (bits, need, where) in sorted(sets.items()):
         missing = sorted(need - bits)
